@@ -249,6 +249,7 @@ fn synth(cmd: &str, args: &[String]) -> i32 {
 	};
 	let hang: Option<&(dyn Fn(&gen::Spec, usize) -> String + Sync)> = match name {
 		"c06" => Some(&oracles::c06_label),
+		"c07" => Some(&oracles::c07_label),
 		"c02" => Some(&slpp_oracles::c02_label),
 		"c18" => Some(&slpp_oracles::c18_label),
 		"c07s" => Some(&slpp_oracles::c07s_label),
